@@ -44,3 +44,10 @@ Proof. intros Hne. unfold py_index. simpl. unfold py_len.
 Lemma py_index_nat {A R L} (l:list A) k d : k < length l -> @py_index A R L l (Z.of_nat k) = Next (nth k l d).
 Proof. intros Hk. unfold py_index. destruct (Z.of_nat k <? 0)%Z eqn:Hn; [apply Z.ltb_lt in Hn; lia|].
   rewrite Hn. rewrite Nat2Z.id. rewrite (nth_error_nth' l d Hk). reflexivity. Qed.
+
+(* one round of `while True` *)
+Lemma while_true_S {R L St} k (body:St -> ctl R St St) s : @while_true R L St (S k) body s =
+  match body s with
+  | Next s' | Continue s' => while_true k body s'
+  | Break s' => Next s' | Return r => Return r | Raise => Raise | NoFuel => NoFuel end.
+Proof. reflexivity. Qed.
